@@ -8,6 +8,7 @@ CONSTANTS
   BadNames <- MCBad
   MaxDepth = 6
   MaxOps = 1000000
+  WithModes = TRUE
   Atomic = TRUE
   ExitFlavour = "entered"
 INVARIANT TypeOK
